@@ -1144,7 +1144,7 @@ def run(ctx: Any, prog: Program) -> None:
             return out
         return None
     env_s = {'size': (1, 0), 'tri_tags_count': (1, -1)}
-    for rq_ in ('Side._parse_displacement_data', 'Side._parse_disp_vecrow'):
+    for rq_ in ('Side._parse_displacement_data', 'Side._parse_disp_vecrow', 'Side._export_displacement', 'Side._export_disp_rowset'):
         env_s.update(disp_env(vm.func(rq_)))
     n_idx = 0
     for rq in ('Side._parse_displacement_data', 'Side._parse_disp_vecrow'):
